@@ -19,7 +19,8 @@ ASSUMPTIONS = [
     "and on every reported violation",
 ]
 SPEC = {
-    'quick': [('K0p', 'small', 3),
+    'quick': [('lasso', 'K5', 'pairs2', 2, 60),
+              ('K0p', 'small', 3),
               ('K1', 'ar', 7),
               ('K0', 'std', 3),
               ('K0', 'small', 4),
